@@ -15,7 +15,7 @@ import (
 )
 
 const rule = "trees: seeded include trees of profile incl-clash (2-4 sibling includes defining the same global variable V, env E, a dir-sensitive sh variable P and same-named / overlapping wildcard tasks; one file included twice at one level under two namespaces with different dir; diamonds; nested siblings; flattened siblings with overlapping wildcards; chains as controls; random DAGs of depth <= 3). " +
-	"schedules per tree: (i) N free-running loads in one process (N per GOMAXPROCS value in coverage.loads_per_tree) (fresh Executor, Setup, dump, dry run of a fixed call list), (ii) with the include.fetched/include.linked hooks every one of the k! completion orders of the k<=4 sibling include readers of each level, each repeated R times, (iii) the whole under GOMAXPROCS 1, 4 and 16. " +
+	"schedules per tree: (i) N free-running loads in one process (N per GOMAXPROCS value in coverage.loads_per_tree) (fresh Executor, Setup, dump; dry run of a fixed call list in every coverage.dry_run_every_nth_free_load-th load), (ii) with the include.fetched/include.linked hooks every one of the k! completion orders of the k<=4 sibling include readers of each level, each repeated R times, (iii) the whole under GOMAXPROCS 1, 4 and 16. " +
 	"oracle: each load is reduced to a canonical dump (maps inside values key-sorted, nothing else normalised) split into kinds (task set, task order, aliases, global var values/order, call binding, compiled var values, compiled var order, command lines, compile errors, dry-run output); one tree must yield one value per kind over all its loads. No model of which value is right. " +
 	"evaluations = loads performed; a case is (tree, schedule) with schedule in {free@gmp, (level, completion order)@gmp}; non-trivial = the tree has a level with >= 2 sibling includes; distinct by (hash of the tree's files, schedule)."
 
@@ -29,9 +29,10 @@ func Run(id string, start time.Time) int {
 
 	ntrees := h.Pick(28, 42)
 	loads := h.Pick(200, 2000)  // free-running loads per tree in one process at GOMAXPROCS=4
-	loadsAlt := h.Pick(50, 200) // ... and in one process each at GOMAXPROCS=1 and 16
+	loadsAlt := h.Pick(10, 200) // ... and in one process each at GOMAXPROCS=1 and 16
 	repeats := h.Pick(3, 6)     // loads per enforced completion order (GOMAXPROCS=4 process)
-	repeatsAlt := h.Pick(1, 2)  // ... at GOMAXPROCS=1 and 16
+	repeatsAlt := h.Pick(1, 2)
+	dryEvery := h.Pick(2, 1) // quick: the dry run is part of every second free-running load  // ... at GOMAXPROCS=1 and 16
 
 	// 1. generate and write the trees
 	var trees []*Tree
@@ -86,7 +87,7 @@ func Run(id string, start time.Time) int {
 			if to > len(trees) {
 				to = len(trees)
 			}
-			j := Job{Trees: trees[from:to], Loads: n, Repeats: rep, GMP: gmp, Hook: true}
+			j := Job{Trees: trees[from:to], Loads: n, Repeats: rep, GMP: gmp, Hook: true, DryEvery: dryEvery}
 			name := fmt.Sprintf("job-g%d-%04d", gmp, from)
 			jobs = append(jobs, jobRef{job: j, path: filepath.Join(scratch, name+".json"), out: filepath.Join(scratch, name+".out.json")})
 		}
@@ -286,10 +287,11 @@ func Run(id string, start time.Time) int {
 		},
 		Exhaustive: &exh,
 		Extra: map[string]any{
-			"exhaustive_subspace": fmt.Sprintf("all k! completion orders of the k<=4 sibling include readers of every level with >=2 includes: %d (tree,level,GOMAXPROCS) levels, %d orders, each repeated %d times (GOMAXPROCS=4) / %d times (1, 16); the free-running loads are a sample, not exhaustive", levels, orders, repeats, repeatsAlt),
-			"gomaxprocs":          gmps,
-			"loads_per_tree":      map[string]int{"gomaxprocs=4": loads, "gomaxprocs=1": loadsAlt, "gomaxprocs=16": loadsAlt},
-			"kinds":               Kinds,
+			"exhaustive_subspace":         fmt.Sprintf("all k! completion orders of the k<=4 sibling include readers of every level with >=2 includes: %d (tree,level,GOMAXPROCS) levels, %d orders, each repeated %d times (GOMAXPROCS=4) / %d times (1, 16); the free-running loads are a sample, not exhaustive", levels, orders, repeats, repeatsAlt),
+			"gomaxprocs":                  gmps,
+			"loads_per_tree":              map[string]int{"gomaxprocs=4": loads, "gomaxprocs=1": loadsAlt, "gomaxprocs=16": loadsAlt},
+			"kinds":                       Kinds,
+			"dry_run_every_nth_free_load": dryEvery,
 		},
 		MinEvents: int64(len(trees)) * int64(loads), EventsKey: "loads_free",
 	}, part)
